@@ -125,6 +125,8 @@ fn data_strategy(tier: Tier) -> BoxedStrategy<Vec<u8>> {
         // the marker in another letter case is not the marker
         b"$NETBSD$", b"$netbsd: x $", b"+CPPFLAGS+= -I$NETBSDSRCDIR/sys", b"$NetBsD", b"$nETbsd",
         b"dos line\r", b"$NetBSD$\r", b"a\rb",
+        // the bare marker, alone and at either end of a line
+        b"$NetBSD", b"$NetBSD", b"x $NetBSD", b"$NetBSD x", b"$", b"$N", b"$NetBS", b"NetBSD lacks this", b"$$NetBSD",
     ]);
     let patch = (
         prop::collection::vec(patch_line, 0..30),
@@ -336,6 +338,12 @@ pub fn check(c: &Case, obs: &mut Obs) -> Result<(), String> {
     }
     let near = marker_near_boundary(c);
     obs.nontrivial = (data.len() >= 55 && max_reads >= 3) || near || any_error;
+    if data.last() != Some(&b'\n') && data.rsplit(|b| *b == b'\n').next().map(|l| l.windows(7).any(|w| w == b"$NetBSD")).unwrap_or(false) {
+        obs.class("final-unterminated-marker-line");
+        if data.ends_with(b"$NetBSD") && (data.len() == 7 || data[data.len() - 8] == b'\n') {
+            obs.class("final-unterminated-line-is-the-bare-marker");
+        }
+    }
     if near {
         obs.class("marker-near-read-boundary");
     }
